@@ -240,3 +240,207 @@ def replay(prop, d):
 
 
 REGISTRY = {"C20": check_c20}
+
+
+# ------------------------------------------------------------------------------------------------ C18
+C18_GRAPH = None
+
+
+def c18_graph():
+    """small graph with IRI / BNode / shape-reference alternatives so that thresholds 0, .5 and 1 give different schemas"""
+    def I(x):
+        return M.iri(M.EX + x)
+    T = M.RDF_TYPE
+    C, D = I("C"), I("D")
+    return [(I("a"), T, C), (I("b"), T, C), (I("c"), T, C), (I("d"), T, D),
+            (I("a"), M.EX + "p", I("d")), (I("b"), M.EX + "p", I("d")), (I("a"), M.EX + "q", M.lit("x")),
+            (I("a"), M.EX + "r", M.lit("1", M.XSD_INTEGER)), (I("b"), M.EX + "r", M.lit("2", M.XSD_INTEGER)),
+            (I("c"), M.EX + "r", M.lit("3", M.XSD_INTEGER)), (I("c"), M.EX + "q", M.lit("y", lang="en")),
+            (I("d"), M.EX + "p", I("a"))]
+
+
+def big_graph(n_classes=2300):
+    T = []
+    for i in range(n_classes):
+        n = M.iri(M.EX + "n%d" % i)
+        T.append((n, M.RDF_TYPE, M.iri(M.EX + "K%d" % i)))
+        T.append((n, M.EX + "p", M.lit("v")))
+    return T
+
+
+ALPHABET = [{"kind": "shex", "fmt": f, "sink": s, "thr": t} for f in ("shexc", "shacl") for s in ("string", "file") for t in (0, 50, 100)] + \
+           [{"kind": "profile", "fmt": "json", "sink": "string", "thr": 0}]
+
+
+def _canon(fmt, text):
+    if text is None:
+        return "none"
+    if fmt == "shacl":
+        import rdflib
+        from rdflib.compare import to_isomorphic
+        g = rdflib.Graph()
+        g.parse(data=text, format="turtle")
+        return "iso:" + str(to_isomorphic(g).internal_hash())
+    return hashlib.sha256(text.encode("utf8")).hexdigest()
+
+
+def _do_call(shaper, c, workdir):
+    from shexer import consts as C
+    if c["kind"] == "profile":
+        st, v, exc, frame = runner.call_guarded(lambda: shaper.profile_graph(string_output=True), timeout=20)
+        return st, (v if st == "ok" else None), None, exc, frame
+    fmt = C.SHEXC if c["fmt"] == "shexc" else C.SHACL_TURTLE
+    thr = c["thr"] / 100
+    if c["sink"] == "string":
+        st, v, exc, frame = runner.call_guarded(lambda: shaper.shex_graph(string_output=True, output_format=fmt, acceptance_threshold=thr), timeout=20)
+        return st, (v if st == "ok" else None), None, exc, frame
+    path = os.path.join(workdir, "out_%d.txt" % random.randrange(10 ** 9))
+    st, v, exc, frame = runner.call_guarded(lambda: shaper.shex_graph(output_file=path, output_format=fmt, acceptance_threshold=thr), timeout=20)
+    text = None
+    if st == "ok" and os.path.exists(path):
+        with open(path, encoding="utf8") as fh:
+            text = fh.read()
+    return st, text, path, exc, frame
+
+
+def _ctor_kwargs(payload, nsdict):
+    from shexer import consts as C
+    kw = dict(raw_graph=payload["nt"], input_format=C.NT, all_classes_mode=True, instances_report_mode=C.MIXED_INSTANCES, namespaces_dict=nsdict)
+    if payload.get("examples"):
+        kw["examples_mode"] = C.ALL_EXAMPLES
+    return kw
+
+
+_FRESH = {}
+
+
+def _fresh(payload, c):
+    """what a brand-new Shaper (own pristine dictionary) returns for this call: the Fresh of spec/ShaperApi.tla"""
+    from shexer.shaper import Shaper
+    key = (payload["gid"], payload.get("examples", False), c["kind"], c["fmt"], c["thr"])
+    if key not in _FRESH:
+        sh = Shaper(**_ctor_kwargs(payload, {M.EX: "ex"}))
+        d = tempfile.mkdtemp(prefix="shexer-verif-c18f-")
+        try:
+            st, text, _p, exc, frame = _do_call(sh, dict(c, sink="string"), d)
+        finally:
+            shutil.rmtree(d, ignore_errors=True)
+        _FRESH[key] = (st, _canon(c["fmt"], text) if st == "ok" else "raise:" + exc)
+    return _FRESH[key]
+
+
+def _run_sequence(payload):
+    """payload: {id, gid, nt, seq: [(shaper, call)], shared: bool, examples: bool}"""
+    from shexer.shaper import Shaper
+    d = tempfile.mkdtemp(prefix="shexer-verif-c18-")
+    events = []
+    try:
+        caller_ns = {M.EX: "ex"}
+        shapers = {}
+        for who, c in payload["seq"]:
+            if who not in shapers:
+                nsd = caller_ns if payload.get("shared") else dict(caller_ns)
+                st, sh, exc, frame = runner.call_guarded(lambda: Shaper(**_ctor_kwargs(payload, nsd)), timeout=20)
+                if st != "ok":
+                    events.append(dict(c, shaper=who, status=False, sameAsFresh=False, fileSame=True, exc=exc, frame=frame))
+                    continue
+                shapers[who] = sh
+            st, text, path, exc, frame = _do_call(shapers[who], c, d)
+            fst, fcanon = _fresh(payload, c)
+            same = (st == "ok" and fst == "ok" and _canon(c["fmt"], text) == fcanon)
+            events.append(dict(c, shaper=who, status=(st == "ok"), sameAsFresh=same, fileSame=True, exc=exc, frame=frame))
+        events_caller = sorted(caller_ns.values())
+    finally:
+        shutil.rmtree(d, ignore_errors=True)
+    return {"id": payload["id"], "events": events, "callerNs": events_caller}
+
+
+def sequences(tier, rnd):
+    out = []
+    T = c18_graph()
+    nt = M.to_nt(T)
+    i = 0
+    # every sequence of length <= 3 over the 13-letter alphabet on one Shaper (thorough) / all of length <= 2 + sampled length 3
+    for n in (1, 2, 3):
+        seqs = list(itertools.product(range(len(ALPHABET)), repeat=n))
+        if tier == "quick" and n == 3:
+            seqs = rnd.sample(seqs, 400)
+        for sq in seqs:
+            out.append({"id": "s%d" % i, "gid": "small", "nt": nt, "seq": [("A", ALPHABET[j]) for j in sq], "shared": False})
+            i += 1
+    # two Shapers built from the same namespaces dictionary, interleaved calls
+    shex = [a for a in ALPHABET if a["kind"] == "shex" and a["sink"] == "string"]
+    for n in (2, 3):
+        combos = list(itertools.product(range(len(shex)), ("A", "B"), repeat=n))
+        combos = rnd.sample(combos, min(len(combos), 150 if tier == "quick" else 1500))
+        for cb in combos:
+            seq = [(cb[2 * k + 1], shex[cb[2 * k]]) for k in range(n)]
+            out.append({"id": "s%d" % i, "gid": "small", "nt": nt, "seq": seq, "shared": True})
+            i += 1
+    # examples mode: repeated calls
+    for sq in [(0, 0), (0, 6), (6, 0), (0, 1), (0, 0, 0)]:
+        out.append({"id": "s%d" % i, "gid": "small", "nt": nt, "seq": [("A", ALPHABET[j]) for j in sq], "shared": False, "examples": True})
+        i += 1
+    # > 10 000 lines: the serializer flushes its buffer every 5 000 lines
+    bnt = M.to_nt(big_graph(2300 if tier == "quick" else 5200))
+    for sq in [(0, 3), (3, 0), (3, 3)]:
+        out.append({"id": "s%d" % i, "gid": "big", "nt": bnt, "seq": [("A", ALPHABET[j]) for j in sq], "shared": False})
+        i += 1
+    return out
+
+
+def check_c18(out, tier):
+    rnd = random.Random(common.seed() + 18)
+    r = tlc.check_model("MC_ShaperApi", "MC_C18_%s.cfg" % tier, workers=8, timeout=1800)
+    out.add_l1("MC_ShaperApi/MC_C18_%s.cfg" % tier, r)
+    for inv in r["violated"]:
+        out.violation("L1.%s" % inv, {"model": "MC_ShaperApi"}, r["out"][-1500:])
+    seqs = sequences(tier, rnd)
+    results = runner.run_many(_run_sequence, seqs, chunk=20)
+    traces = []
+    for s, r_ in zip(seqs, results):
+        if r_.get("status") == "harness-error":
+            raise common.Machinery("harness error: %s\n%s" % (r_.get("exc"), r_.get("trace", "")))
+        traces.append({"id": s["id"], "events": [{"kind": e["kind"], "fmt": e["fmt"], "sink": e["sink"], "thr": e["thr"], "shaper": e["shaper"],
+                                                   "status": e["status"], "sameAsFresh": e["sameAsFresh"], "fileSame": e["fileSame"]}
+                                                  for e in r_["events"]]})
+    verdicts, stats = tlc.validate_batch("Trace_ShaperApi", "Trace_ShaperApi.cfg", traces, procs=8)
+    out.traces += len(traces)
+    out.evaluations += sum(len(t["events"]) for t in traces)
+    out.exhaustive = (tier == "thorough")
+    out.notes["monitor_states"] = stats["states"]
+    for s, r_ in zip(seqs, results):
+        v = verdicts[s["id"]]
+        if len(s["seq"]) >= 2:
+            out.nontrivial.add(s["id"])
+        if any(c.startswith("MACHINERY") for c in v["clauses"]):
+            raise common.Machinery("C18 trace %s: %s" % (s["id"], v["clauses"]))
+        detail = "sequence=%s shared_dict=%s examples=%s events=%s" % (
+            [(w, c["kind"], c["fmt"], c["sink"], c["thr"]) for w, c in s["seq"]], s.get("shared"), s.get("examples", False),
+            [(e["status"], e["sameAsFresh"], e.get("exc")) for e in r_["events"]])
+        case = {"kind": "c18", "seq": {k: s[k] for k in s if k not in ("nt",)}}
+        out.judge_clauses(v["clauses"], case, lambda c: c.startswith("C18."), detail=detail)
+        out.sample({"sequence": [(w, c["kind"], c["fmt"], c["sink"], c["thr"]) for w, c in s["seq"]], "shared_dict": s.get("shared"),
+                    "clauses": v["clauses"]})
+    return ("call sequences on real Shapers: every sequence of length <= 2 (thorough: <= 3) over the 13-letter alphabet {shex_graph(ShExC|SHACL, "
+            "string|file, threshold 0|.5|1), profile_graph} + sampled length 3; interleavings on two Shapers built from one namespaces "
+            "dictionary; examples_mode repetitions; an output of > 10 000 lines (flush boundary); each call's text (ShExC bytes / SHACL up to "
+            "graph isomorphism, file content for file sinks) is compared with what a brand-new Shaper returns for the same arguments")
+
+
+def replay_c18(d):
+    out = common.Outcome("C18", "quick")
+    s = dict(d["case"]["seq"])
+    s["nt"] = M.to_nt(c18_graph() if s["gid"] == "small" else big_graph())
+    s["seq"] = [tuple(x) for x in s["seq"]]
+    r_ = _run_sequence(s)
+    t = {"id": s["id"], "events": [{"kind": e["kind"], "fmt": e["fmt"], "sink": e["sink"], "thr": e["thr"], "shaper": e["shaper"],
+                                    "status": e["status"], "sameAsFresh": e["sameAsFresh"], "fileSame": e["fileSame"]} for e in r_["events"]]}
+    verdicts, _ = tlc.validate_batch("Trace_ShaperApi", "Trace_ShaperApi.cfg", [t])
+    out.traces = 1
+    out.evaluations = len(t["events"])
+    out.judge_clauses(verdicts[s["id"]]["clauses"], d["case"], lambda c: c.startswith("C18."), detail=str(r_["events"]))
+    return common.finish(out, rule="replay")
+
+
+REGISTRY["C18"] = check_c18
